@@ -551,6 +551,42 @@ def check_token_level_roundtrip(ctx, model):
     ctx.floor('token_level_rows', 40)
 
 
+# ---- stored query text is a fixpoint of print / re-parse ------------------------------------------------------------------------------------------
+
+def check_stored_text_stable(ctx):
+    """Commands that embed a raw query store the text tokens_to_string rebuilds from the tokens, print it, and on re-parse rebuild it again from the tokens of
+    the printed text.  tokens_to_string is interpreted (sa/interp.py) on the tokens of layouts with line breaks, blank lines and indentation; its output is
+    tokenised again (same words, positions of the new text) and rebuilt: the second text must equal the first, or the re-parsed tree differs from the printed one."""
+    import re as _re
+    from ..interp import Interp, Obj, Raised, Env
+    UT = 'mindsdb_sql/parser/utils.py'
+    tts = next((n for n in ctx.src.tree(UT).body if isinstance(n, ast.FunctionDef) and n.name == 'tokens_to_string'), None)
+    ctx.need(tts is not None, 'tokens_to_string not found')
+
+    def toks(text, base=0):
+        return [Obj('Token', type='T', value=m.group(0), index=base + m.start(), end=base + m.end(), lineno=text.count('\n', 0, m.start()) + 1)
+                for m in _re.finditer(r"'[^']*'|[^\s]+", text)]
+    layouts = ['select a from t', 'select a\nfrom t', 'select a\n\nfrom t', 'select a\n\n\n   from t\n\n where x = 1', '  select a\n\n      , b\n\n\nfrom t',
+               "select 'x\n\ny' c\n\nfrom t", 'a\n\n\n\nb']
+    n = 0
+    for text in layouts:
+        for base in (0, 17):
+            it = Interp.for_file(ctx.src, UT, {}, {})
+            n += 1
+            try:
+                first = it.call_function(tts, [toks(text, base)], {}, Env())
+                second = it.call_function(tts, [toks(first, base)], {}, Env()) if isinstance(first, str) else None
+                third = it.call_function(tts, [toks(second, base)], {}, Env()) if isinstance(second, str) else None
+            except Raised as r:
+                first, second, third = f'<raises {r.exc_name}>', None, None
+            ok = isinstance(first, str) and second == first and third == second and first.split() == text.split()
+            ctx.ob('C01.stored-text-stable', f'{text!r}@{base}', ok,
+                   f'the stored text of the embedded query {text!r} is {first!r}; rebuilt from its own tokens it is {second!r} (then {third!r}): the text changes on every '
+                   f'print / parse round, so the re-parsed statement differs from the printed one', file=UT, line=tts.lineno,
+                   witness='create view v as (select a\n\nfrom t)')
+    ctx.setcount('stored_text_layouts', n)
+
+
 # ---- leaves ------------------------------------------------------------------------------------------------------------------
 
 def check_leaves(ctx, model):
@@ -610,6 +646,7 @@ def run(ctx):
     check_raw_interpolation(ctx, model)
     check_leaves(ctx, model)
     check_token_level_roundtrip(ctx, model)
+    check_stored_text_stable(ctx)
     # codec (shared with C04): string literals and identifiers
     sub_findings = []
     from ..core import Ctx
